@@ -413,6 +413,8 @@ type LoopContract struct {
 	Ordinal    int
 	Invariants []Clause
 	BackEdge   []Clause
+	Init       []Clause
+	Exit       []Clause
 	Decreases  *Clause
 	Hint       string
 }
@@ -516,7 +518,7 @@ func (db *ContractDB) allowPanic(fn string) bool {
 
 var clauseKeywords = map[string]bool{
 	"assert_before_call": true, "writers": true, "callers": true, "hint": true, "ghostsum": true, "assert_at_unlock": true, "assert_after_store": true, "assume_after_lock": true, "apply_after_lock": true, "opaque": true, "apply": true, "reveal": true, "guard": true, "lock": true, "lockorder": true, "pure": true, "lemma": true, "func": true, "props": true, "safety": true,
-	"requires": true, "ensures": true, "let": true, "assigns": true, "loop": true, "invariant": true, "backedge": true,
+	"requires": true, "ensures": true, "let": true, "assigns": true, "loop": true, "invariant": true, "backedge": true, "init": true, "exit": true,
 	"decreases": true, "allow_panic": true, "modular": true, "init_context": true, "entry": true, "option": true, "uses": true, "end": true,
 }
 
@@ -866,7 +868,7 @@ func (db *ContractDB) addClauses(pkg string, clauses []string, path string) erro
 				} else if len(f) == 1 {
 					cur.Opts[f[0]] = "true"
 				}
-			case "requires", "ensures", "invariant", "decreases", "backedge":
+			case "requires", "ensures", "invariant", "decreases", "backedge", "init", "exit":
 				e, err := mustParse(rest)
 				if err != nil {
 					return err
@@ -882,6 +884,18 @@ func (db *ContractDB) addClauses(pkg string, clauses []string, path string) erro
 						return fmt.Errorf("invariant outside loop block: %q", cl)
 					}
 					curLoop.Invariants = append(curLoop.Invariants, c)
+				case "init":
+					// asserted once, when the loop is entered (not an invariant)
+					if curLoop == nil {
+						return fmt.Errorf("init outside loop block: %q", cl)
+					}
+					curLoop.Init = append(curLoop.Init, c)
+				case "exit":
+					// asserted on every edge that leaves the loop
+					if curLoop == nil {
+						return fmt.Errorf("exit outside loop block: %q", cl)
+					}
+					curLoop.Exit = append(curLoop.Exit, c)
 				case "backedge":
 					// two-state iteration assertion, checked at every back edge of the
 					// loop; atiter(e) is e at the start of the iteration
